@@ -160,33 +160,22 @@ fn pick_edit(p: &crate::gen::sem::Program, class: &str, pick: usize) -> Option<E
             if class == "operator-too-many-operands" {
                 Some(Edit { file: *file, range: (*close, *close), text: ", 0".into(), site: (*start, *close + 4), what: format!("one operand too many for {op}") })
             } else {
-                // drop everything after the last top-level comma … simpler: drop the last operand by text scan
+                // drop the last operand: everything from the last comma at the operator's own level (or, with a
+                // single operand, from behind the opening parenthesis) - by the tokens, strings may hold anything
                 let text = &p.files[*file].1;
+                let (toks, _) = super::c14::impl_lex(text);
                 let mut depth = 0i32;
-                let mut cut = None;
-                let mut i = *close;
-                while i > 0 {
-                    i -= 1;
-                    match text.as_bytes()[i] {
-                        b')' | b']' | b'}' | b'>' => depth += 1,
-                        b'(' | b'[' | b'{' | b'<' => {
-                            if depth == 0 {
-                                cut = Some((i + 1, true));
-                                break;
+                let mut cut: Option<(usize, bool)> = None;
+                for t in toks.iter().filter(|t| !t.0.is_trivia() && t.1 >= *start && t.2 <= *close) {
+                    match &text[t.1..t.2] {
+                        "(" | "[" | "{" | "<" => {
+                            if depth == 0 && cut.is_none() {
+                                cut = Some((t.2, true));
                             }
-                            depth -= 1;
+                            depth += 1;
                         }
-                        b',' if depth == 0 => {
-                            cut = Some((i, false));
-                            break;
-                        }
-                        b'"' => {
-                            // skip the string literal backwards
-                            while i > 0 && text.as_bytes()[i - 1] != b'"' {
-                                i -= 1;
-                            }
-                            i = i.saturating_sub(1);
-                        }
+                        ")" | "]" | "}" | ">" => depth -= 1,
+                        "," if depth == 1 => cut = Some((t.1, false)),
                         _ => {}
                     }
                 }
